@@ -1,4 +1,4 @@
 From Coq Require Extraction.
 From Coq Require Import ExtrOcamlBasic.
 From RM Require Import C08.Driver.
-Extraction "c08_model.ml" run_case o_panic o_table o_gets.
+Extraction "c08_model.ml" run_case o_panic o_err o_table o_gets.
